@@ -90,6 +90,13 @@ impl Vm {
             if let "quote" | "define-syntax" = proc.as_str() {
                 return Ok(expr.clone());
             }
+            // Only the unquoted parts of a quasiquote template are code
+            if proc.as_str() == "quasiquote" {
+                return Ok(Cell::new_pair(
+                    expr.car().unwrap().clone(),
+                    self.transform_quasiquote(rest, 0)?,
+                ));
+            }
         }
 
         if let Some(sym) = self.heap.get_sym_ref(proc) {
@@ -114,6 +121,69 @@ impl Vm {
         } else {
             let rest = self.transform(rest)?;
             Ok(Cell::new_improper_list(v, rest))
+        }
+    }
+
+    /// Transform Quasiquote
+    ///
+    /// Apply pre-compilation transforms to the expressions a quasiquote template
+    /// unquotes at nesting level 0, leaving the quoted parts of the template as
+    /// they are. Vector templates are traversed like lists.
+    ///
+    /// # Arguments
+    /// `template` - The template (or a tail of it)
+    /// `depth` - The quasiquote nesting level of template
+    fn transform_quasiquote(&mut self, template: &Cell, depth: usize) -> Result<Cell, Error> {
+        match template {
+            Cell::Vector(vector) => Ok(Cell::Vector(
+                vector
+                    .iter()
+                    .map(|it| self.transform_quasiquote(it, depth))
+                    .collect::<Result<Vec<Cell>, Error>>()?,
+            )),
+            Cell::Pair(_, _) => {
+                let mut depth = depth;
+                let head = template.car().unwrap();
+                if head.is_unquote() {
+                    if depth == 0 {
+                        // (unquote expr): the operand is code
+                        let mut operands = vec![];
+                        let mut tail = template.cdr().unwrap();
+                        while tail.is_pair() {
+                            operands.push(self.transform(tail.car().unwrap())?);
+                            tail = tail.cdr().unwrap();
+                        }
+                        return Ok(Cell::new_pair(
+                            head.clone(),
+                            Self::append_tail(operands, tail.clone()),
+                        ));
+                    }
+                    depth -= 1;
+                } else if head.is_quasiquote() {
+                    depth += 1;
+                }
+                let mut v = vec![];
+                let mut rest = template;
+                while rest.is_pair() {
+                    // (a . ,b) reads as (a unquote b): an unquote form in tail position
+                    if !v.is_empty() && rest.car().unwrap().is_unquote() {
+                        break;
+                    }
+                    v.push(self.transform_quasiquote(rest.car().unwrap(), depth)?);
+                    rest = rest.cdr().unwrap();
+                }
+                let tail = self.transform_quasiquote(rest, depth)?;
+                Ok(Self::append_tail(v, tail))
+            }
+            cell => Ok(cell.clone()),
+        }
+    }
+
+    fn append_tail(v: Vec<Cell>, tail: Cell) -> Cell {
+        if v.is_empty() {
+            tail
+        } else {
+            Cell::new_improper_list(v, tail)
         }
     }
 
